@@ -23,7 +23,7 @@ def _fast_unescape(s, _slow=tlc._unescape):
 tlc._unescape = _fast_unescape
 
 ALL_FAULTS = '{"flip", "fliplen", "drop", "dup", "swap", "cut", "cuteof", "trunc"}'
-GLITCHES = '{"dataerr", "temperr", "shortwrite", "eofdata"}'
+GLITCHES = '{"dataerr", "temperr", "shortwrite", "eofdata", "refusewrite"}'
 RGLITCHES = '{"dataerr", "temperr", "eofdata"}'
 CH_INV = "INVARIANTS TypeOK Prefix Complete Conservation Nonces ErrNoLater NeverPast"
 CH_PROPS = "PROPERTIES ErrDeliversNothing ReadCount PathGuard"
@@ -37,7 +37,7 @@ def S(xs):
 # instances
 
 ALL_OTHERS = '{"rev", "peer"}'
-CH_GLITCHES = '{"dataerr", "temperr", "shortwrite"}'
+CH_GLITCHES = '{"dataerr", "temperr", "shortwrite", "refusewrite"}'
 
 
 def chan_exhaustive(ctx):
@@ -266,7 +266,7 @@ def _edge_stats(g):
                 inc("read-error")
             t = g.states[tk]
             s = g.states[sk]
-            if isinstance(t, list) and len(t) == 20:
+            if isinstance(t, list) and len(t) == 21:
                 if t[5] and t[6] == t[7]:
                     inc("quirk-queue-kept-empty")
                 if t[5] and 0 < t[7] < t[6]:
@@ -277,7 +277,7 @@ def _edge_stats(g):
             inc("fault:" + op["kind"])
         if n == "other":
             s = g.states[sk]
-            if isinstance(s, list) and len(s) == 20:
+            if isinstance(s, list) and len(s) == 21:
                 inc("other:%s:%s" % (op["who"], "queue-partial" if s[5] and s[7] < s[6] else "queue-kept-empty" if s[5] else "no-queue"))
         if n == "sock" and op.get("coalesced"):
             inc("start-coalesced")
@@ -301,6 +301,10 @@ def _edge_stats(g):
             inc("read-glitch:" + op["glitch"])
         if n == "write" and op.get("short"):
             inc("write-short")
+        if n == "write" and op.get("refused"):
+            inc("write-refused")
+            if "nonce" in op:
+                inc("write-refused-first" if op["nonce"] else "write-refused-later")
         if n == "write" and "frames" in op:
             inc("write-frames:%d" % min(len(op["frames"]), 4))
         if n in ("read", "creadend", "sread") and op.get("halfclosed") and op.get("n", 0) > 0:
@@ -318,17 +322,18 @@ def _edge_stats(g):
 
 CHAN_NEED = ["path:queued", "path:inplace", "path:pooled", "path:end", "rel:lt", "rel:eq", "rel:gt", "rel:lt_pt",
              "rel:eq_pt", "rel:mid", "rel:eq_len", "rel:gt_len", "read-error", "quirk-queue-kept-empty",
-             "queue-partial", "delivery-after-error", "write-frames:2", "op:short", "write-short",
+             "queue-partial", "delivery-after-error", "write-frames:2", "op:short", "write-short", "write-refused",
              "read-glitch:dataerr", "read-glitch:temperr"] + \
             ["other:%s:%s" % (w, q) for w in ("rev", "peer") for q in ("queue-partial", "queue-kept-empty", "no-queue")] + \
             ["fault:" + k for k in ("flip", "fliplen", "drop", "dup", "swap", "cut", "cuteof", "trunc")]
 LAYER_NEED = {
-    "psk": ["op:write", "op:read", "op:short", "psk-second-write", "write-short", "read-glitch:dataerr",
+    "psk": ["op:write", "op:read", "op:short", "psk-second-write", "write-short", "write-refused-first",
+            "write-refused-later", "read-glitch:dataerr",
             "read-glitch:temperr", "glitch:eofdata", "eof"],
     "sampled": ["op:peek", "op:send", "op:close", "peeked-short-buffer", "eof", "read-glitch:dataerr",
                 "read-glitch:temperr", "glitch:eofdata"],
     "mux": ["op:open", "op:write", "op:closewrite", "op:read", "read-after-own-closewrite", "eof"],
-    "muxg": ["op:open", "op:write", "op:read", "glitch:dataerr", "glitch:temperr", "glitch:shortwrite"],
+    "muxg": ["op:open", "op:write", "op:read", "glitch:dataerr", "glitch:temperr", "glitch:shortwrite", "glitch:refusewrite"],
     "muxt": ["op:open", "op:write", "op:read", "op:wait", "eof"],
     "muxc": ["op:open", "op:write", "op:read", "cut:cuteof", "cut:cutrst", "cut-two-streams-open", "term:err", "eof"],
     "start": ["op:write", "op:finish", "op:read", "start-coalesced", "start-boundary", "start-carry"],
